@@ -1,7 +1,7 @@
 SPECIFICATION Spec
 CONSTANTS
   NSym = 2
-  MaxWord = 3
+  MaxWord = 2
   Mode = "arith"
-INVARIANTS PinnedScoreSafe
+INVARIANTS ArithSafe Markup
 CHECK_DEADLOCK FALSE
